@@ -143,16 +143,18 @@ def deep(ref=False):
             o.append(tab('sym-%s-%s/3col/r%d' % (TN[ct], 'opt' if opt else 'req', r), cols, r, ps=(1048576,) if opt else (1,), read=(1, 2, 4)[(ct + opt) % 3], via=(3, 5, 6)[ct % 3], k=3, **A(timeout=3000)))
     # ---- (2) symbolic window of 3-4 rows inside a longer table: across page and row-group boundaries, behind an empty batch
     for i, (ct, opt, sym) in enumerate(((1, 1, 3), (2, 1, 1), (5, 1, 1), (0, 1, 3), (4, 1, 2), (6, 1, 3), (3, 0, 2))):
-        o.append(tab('window-%s/2col/r10-rg6.4' % TN[ct], [(ct, opt, sym, [2, 3, 1], 4), (5 if ct != 5 else 1, 1, 0, [4, 0, 2])], 10, rg=[6, 4], window=(4, 8) if sym == 1 or ct == 4 else (5, 8), ps=(1,), read=(1, 2, 4)[i % 3], via=(1, 2, 4)[(i + 1) % 3], k=4, **A(timeout=3000)))
-    for i, (ct, opt, sym) in enumerate(((1, 1, 1), (5, 1, 3), (0, 1, 1), (2, 0, 2))):
+        o.append(tab('window-%s/2col/r10-rg6.4' % TN[ct], [(ct, opt, sym, [2, 3, 1], 4), (5 if ct != 5 else 1, 1, 0, [4, 0, 2])], 10, rg=[6, 4], window=((4, 8) if sym == 1 or ct == 4 else (5, 8)) if not ref else ((5, 8) if sym == 1 or ct == 4 else (5, 7)), ps=(1,), read=(1, 2, 4)[i % 3], via=(1, 2, 4)[(i + 1) % 3], k=4, **A(timeout=3000)))
+    for i, (ct, opt, sym) in enumerate(((1, 1, 1), (5, 1, 3 if not ref else 1), (0, 1, 1), (2, 0, 2))):
         o.append(tab('window-%s/3col/r12-ps80' % TN[ct], [(4, 1, 0, [5, 7]), (ct, opt, sym, [1, 2, 0, 3]), (6, 0, 0, [12], 1)], 12, window=(2, 6), ps=(80,), order=2, read=(4, 1, 2)[i % 3], via=(2, 4, 1)[i % 3], k=5, **A(timeout=3000)))
     # ---- (3) null patterns of longer columns (values concrete): RLE runs of >= 8 equal levels, several batches per page
-    o.append(tab('nulls-INT32/1col/r10', [(1, 1, 1, [3, 3, 4])], 10, ps=(1048576,), read=1, via=3, k=4, **A(timeout=3000)))
+    rn = 9 if ref else 10
+    o.append(tab('nulls-INT32/1col/r%d' % rn, [(1, 1, 1, [3, 3, 4])], rn, ps=(1048576,), read=1, via=3, k=4, **A(timeout=3000)))
     o.append(tab('nulls-BOOLEAN/2col/r9', [(0, 1, 1, [4, 5]), (1, 0, 0, [9])], 9, ps=(1048576,), read=2, via=4, k=2, **A(timeout=3000)))
     o.append(tab('nulls-BYTE_ARRAY/1col/r7-rg3.4', [(5, 1, 1, [2, 2, 5])], 7, rg=[3, 4], ps=(1048576,), read=4, via=1, **A(timeout=3000)))
     # ---- (4) codecs with a symbolic null pattern (page bodies concrete per path), 3 columns
     for i, (codec, ct) in enumerate((('snappy', 1), ('lz4', 5), ('snappy', 0), ('lz4', 2), ('snappy', 6), ('lz4', 4))):
-        o.append(tab('codec-%s-%s/3col/r7' % (codec, TN[ct]), [(3, 0, 0, [7]), (ct, 1, 1, [3, 4], 5), (5 if ct != 5 else 2, 1, 0, [2, 5])], 7, rg=None, ps=(1,), codec=(codec,), read=(1, 2, 4)[i % 3], via=(1, 4, 2)[i % 3], k=3, **A(timeout=3000)))
+        rc = 6 if ref else 7
+        o.append(tab('codec-%s-%s/3col/r%d' % (codec, TN[ct], rc), [(3, 0, 0, [rc]), (ct, 1, 1, [3, 4], 5), (5 if ct != 5 else 2, 1, 0, [2, 5])], rc, rg=None, ps=(1,), codec=(codec,), read=(1, 2, 4)[i % 3], via=(1, 4, 2)[i % 3], k=3, **A(timeout=3000)))
     # ---- (5) byte arrays with symbolic lengths 0..3, FLBA lengths 1 / 5 / 16
     o.append(tab('balen2/2col/r3', [(5, 1, 3, [1, 2]), (1, 0, 0, [3])], 3, nsymlen=2, ps=(1048576,), read=1, via=3, k=2, **A(timeout=3000)))
     o.append(tab('balen3-req/1col/r3', [(5, 0, 2, [3])], 3, nsymlen=3, ps=(1,), read=2, via=1, **A(timeout=3000)))
